@@ -580,12 +580,55 @@ def _contiguous(m):
     return (lo_, hi_) if m == (1 << hi_) - (1 << lo_) else None
 
 
+LIA_FRESH_DIVMOD = [False]  # opt-in (C09 Base58): floor division / remainder by constants as fresh integers + defining axioms
+_DMFRESH = {}
+
+
+def _divmod_fresh(x, m):
+    """(q, r) fresh z3 Ints with value(x) == m*q + r and 0 <= r < m (floor division by the positive constant m; definitional
+    side constraint).  z3 decides long divmod-by-58 / by-256 chains in this form and answers `unknown` on the div/mod terms."""
+    key = (x.id, m)
+    qr = _DMFRESH.get(key)
+    if qr is None:
+        xi = lowi(x)
+        q = z3.Int(f"dq!{x.id}!{m}")
+        r = z3.Int(f"dr!{x.id}!{m}")
+        _side("int", z3.And(xi == m * q + r, r >= 0, r < m, q >= x.lo // m, q <= x.hi // m))
+        qr = _DMFRESH[key] = (q, r)
+    return qr
+
+
+def _lowi_fresh(n):
+    """lowering of the div/mod family under LIA_FRESH_DIVMOD; None when n is not of that family.  Right shifts by a multiple of
+    8 and byte extraction are chained through division by 256 so that consecutive bytes share their quotients."""
+    op, a = n.op, n.args
+    if op == "mod":
+        return _divmod_fresh(a[0], a[1])[1]
+    if op == "div":
+        return _divmod_fresh(a[0], a[1])[0]
+    if op == "shr":
+        c = a[1]
+        if c % 8 == 0 and c > 8:
+            return _divmod_fresh(n_shr(a[0], c - 8), 256)[0]
+        return _divmod_fresh(a[0], 1 << c)[0]
+    if op == "byte":
+        return _divmod_fresh(n_shr(a[0], 8 * a[1]), 256)[1]
+    if op == "and" and is_const(a[1]) and a[1].args[0] > 0 and a[1].args[0] & (a[1].args[0] + 1) == 0:
+        return _divmod_fresh(a[0], a[1].args[0] + 1)[1]
+    return None
+
+
 def lowi(n):
     """z3 Int term equal to value(n)"""
     r = n._int
     if r is not None:
         return r
     op, a = n.op, n.args
+    if LIA_FRESH_DIVMOD[0] and op in ("mod", "div", "shr", "byte", "and"):
+        r = _lowi_fresh(n)
+        if r is not None:
+            n._int = r
+            return r
     if op == "const":
         r = z3.IntVal(a[0])
     elif op == "var":
@@ -850,6 +893,22 @@ class Ctx:
         self.stats.q[rs] += 1
         return rs
 
+    def query_fresh(self, extra, timeout_ms=None):
+        """query() on a new, non-incremental solver holding the same assertions (variable ranges, side conditions, pc):
+        z3 then runs its full preprocessing pipeline, which decides table look-up / xor-heavy lemmas that the
+        incremental (push/pop) core does not (C15: 255 GF(256) per-constant lemmas 25 s instead of > 600 s)"""
+        s = z3.Solver()
+        s.set("timeout", timeout_ms or self.timeout_ms)
+        t = time.time()
+        s.add(self.solver.assertions())
+        s.add(*self.pc)
+        s.add(*extra)
+        rs = str(s.check())
+        self.model = s.model() if rs == "sat" else None
+        self.stats.solver_s += time.time() - t
+        self.stats.q[rs] += 1
+        return rs
+
 
 CTX = None
 
@@ -1024,9 +1083,10 @@ def explore(fn, mode="bv", max_paths=20000, timeout_ms=20000, wall_s=None, pre=N
         CTX = prev
 
 
-def check(p, label, witness=None, timeout_ms=None):
+def check(p, label, witness=None, timeout_ms=None, fresh=False):
     """assert p on the current path: query pc ∧ ¬p.  Records a violation candidate (with model) on sat,
-    an inconclusive entry on unknown.  Returns True when discharged."""
+    an inconclusive entry on unknown.  Returns True when discharged.  fresh=True: decide on a new non-incremental solver
+    (see Ctx.query_fresh)."""
     c = CTX
     if isinstance(p, SB):
         p = p.n
@@ -1042,7 +1102,7 @@ def check(p, label, witness=None, timeout_ms=None):
             return True
     else:
         zp = c.lower(p)
-        r = c.query([z3.Not(zp)], timeout_ms)
+        r = c.query_fresh([z3.Not(zp)], timeout_ms) if fresh else c.query([z3.Not(zp)], timeout_ms)
     if r == "unsat":
         return True
     if r == "unknown":
